@@ -15,7 +15,7 @@
                                    fresh element; different groups get different fresh elements
       view      := (startTag) | (list) | (items) | (keys) | (has n) | (in n) | (item n) | (get n) | (getd n)
                  | (attr n) | (attrd n) | (dotget n) | (domkeys) | (domitem n)
-                 | (className) | (classList) | (hasClass n) | (styleStr) | (sdot n) | (gstyle n)
+                 | (className) | (classList) | (hasClass n) | (styleStr) | (sdot n) | (gstyle n) | (styeq s)
                  | (clone) | (reparse)
     checkpoints := ( k* )      prefix lengths of the history
 
@@ -33,6 +33,7 @@ inductive View where
   | has (n : Str) | inMap (n : Str) | item (n : Str) | get (n : Str) | getd (n : Str)
   | attr (n : Str) | attrd (n : Str) | dotget (n : Str) | domkeys | domitem (n : Str)
   | className | classList | hasClass (n : Str) | styleStr | sdot (n : Str) | gstyle (n : Str)
+  | styeq (s : Str)
   | clone | reparse
 
 inductive Item where
@@ -86,6 +87,7 @@ def view? : Sexp → Option View
   | .list [.atom "styleStr"] => some .styleStr
   | .list [.atom "sdot", n] => (toStr? n).map .sdot
   | .list [.atom "gstyle", n] => (toStr? n).map .gstyle
+  | .list [.atom "styeq", n] => (toStr? n).map .styeq
   | .list [.atom "clone"] => some .clone
   | .list [.atom "reparse"] => some .reparse
   | _ => none
@@ -154,6 +156,7 @@ def readView (T : Tables) (e : El) : View → Sexp × El
   | .styleStr => (strAtom (styleStr e), e)
   | .sdot n => (strAtom (styleDotGet n e), e)
   | .gstyle n => (strAtom (getStyle n e), e)
+  | .styeq s => (boolS (styleEq e.sty (styleToDict s)), e)
   | .clone =>
     let (c, e') := clone T e
     let (l, c') := attrsList c
